@@ -12,18 +12,24 @@ import (
 // ReplayFile is the on-disk form of a failing run: the minimised choice tape
 // is sufficient to re-execute it; everything else is for the reader.
 type ReplayFile struct {
-	Property   string          `json:"property"`
-	BaseSeed   uint64          `json:"base_seed"`
-	Run        uint64          `json:"run"`
-	RunSeed    uint64          `json:"run_seed"`
-	Violation  core.Violation  `json:"violation"`
-	Tape       []uint64        `json:"tape"`
-	TapeLabels []tape.Entry    `json:"tape_labelled,omitempty"`
-	Trace      []string        `json:"trace"`
-	Shrink     map[string]int  `json:"shrink,omitempty"`
-	Original   int             `json:"original_tape_len"`
-	Note       string          `json:"note,omitempty"`
-	Extra      json.RawMessage `json:"extra,omitempty"`
+	Property   string         `json:"property"`
+	BaseSeed   uint64         `json:"base_seed"`
+	Run        uint64         `json:"run"`
+	RunSeed    uint64         `json:"run_seed"`
+	Violation  core.Violation `json:"violation"`
+	Tape       []uint64       `json:"tape"`
+	TapeLabels []tape.Entry   `json:"tape_labelled,omitempty"`
+	Trace      []string       `json:"trace"`
+	Shrink     map[string]int `json:"shrink,omitempty"`
+	Original   int            `json:"original_tape_len"`
+	Note       string         `json:"note,omitempty"`
+	// Prelude: tapes of earlier runs of the same worker process that have to
+	// be executed, in this order and in the same process, before Tape (state
+	// of the code under test that survives between runs: the failing history
+	// is the concatenation)
+	Prelude     [][]uint64      `json:"prelude_tapes,omitempty"`
+	PreludeRuns []uint64        `json:"prelude_runs,omitempty"`
+	Extra       json.RawMessage `json:"extra,omitempty"`
 }
 
 func WriteReplay(dir string, rf *ReplayFile, name string) (string, error) {
